@@ -280,6 +280,124 @@ fn run_lattice(ctx: &mut Ctx) -> Result<(), String> {
     Ok(())
 }
 
+// ---------------------------------------------------------------------------------------
+// COMPONENTS OF: "every tag written in the source is applied to the corresponding field" also
+// where the field is a copy. The included components carry, in the including type, the tag
+// attributes they carry in the type they are written in. (Not judged: an including type
+// without any tag of its own in an AUTOMATIC TAGS module, which is re-tagged as a whole.)
+
+#[derive(Clone, Debug, serde::Serialize, serde::Deserialize)]
+struct CompOf {
+    default: usize,
+    /// (class 0 context / 1 APPLICATION / 2 PRIVATE, number, keyword 0 none / 1 IMPLICIT / 2 EXPLICIT, type index, OPTIONAL)
+    members: Vec<(u8, u8, u8, u8, bool)>,
+}
+
+const CO_DEFAULTS: [&str; 4] = ["", "EXPLICIT TAGS", "IMPLICIT TAGS", "AUTOMATIC TAGS"];
+const CO_TYPES: [&str; 5] = ["INTEGER", "BOOLEAN", "OCTET STRING", "CHOICE { c1 INTEGER, c2 BOOLEAN }", "SEQUENCE { s1 INTEGER }"];
+
+fn co_text(c: &CompOf) -> String {
+    let members: Vec<String> = c
+        .members
+        .iter()
+        .enumerate()
+        .map(|(i, m)| {
+            format!(
+                "m{i} [{}{}] {}{}{}",
+                ["", "APPLICATION ", "PRIVATE "][m.0 as usize % 3],
+                m.1,
+                ["", "IMPLICIT ", "EXPLICIT "][m.2 as usize % 3],
+                CO_TYPES[m.3 as usize % CO_TYPES.len()],
+                if m.4 { " OPTIONAL" } else { "" }
+            )
+        })
+        .collect();
+    format!(
+        "Co-Mod DEFINITIONS {} ::= BEGIN\nBase ::= SEQUENCE {{ {} }}\nIncl-Plain ::= SEQUENCE {{ lead NULL, COMPONENTS OF Base }}\nIncl-Tagged ::= SEQUENCE {{ lead [30] NULL, COMPONENTS OF Base }}\nIncl-Set ::= SET {{ lead [31] NULL, COMPONENTS OF Base-Set }}\nBase-Set ::= SET {{ {} }}\nEND\n",
+        CO_DEFAULTS[c.default % 4],
+        members.join(", "),
+        members.join(", ")
+    )
+}
+
+fn co_eval(c: &CompOf) -> Result<Option<String>, String> {
+    let text = co_text(c);
+    let out = match comp::compile_rasn1(&text, &Cfg::default()) {
+        Outcome::Ok(o) if o.warnings.is_empty() => o,
+        Outcome::Ok(o) => return Err(format!("warnings: {}", o.warnings[0])),
+        Outcome::Err(e) => return Err(e),
+        Outcome::Panic(p) => return Err(format!("panic: {p}")),
+    };
+    let mods = crate::proj::project(&out.generated)?;
+    let m = mods.first().ok_or("no module")?;
+    for (base, incls) in [("Base", vec!["InclPlain", "InclTagged"]), ("BaseSet", vec!["InclSet"])] {
+        let Some(b) = m.find_struct(base) else { return Err(format!("{base} not generated")) };
+        for incl in incls {
+            if incl == "InclPlain" && c.default % 4 == 3 {
+                continue;
+            }
+            let Some(s) = m.find_struct(incl) else { return Err(format!("{incl} not generated")) };
+            for bf in &b.fields {
+                let Some(f) = s.fields.iter().find(|f| f.name == bf.name) else {
+                    return Ok(Some(format!("{incl} lacks the included component {}", bf.name)));
+                };
+                if f.attrs.tag != bf.attrs.tag {
+                    return Ok(Some(format!("component {} carries {:?} in {base} and {:?} where it is included in {incl} (module default `{}`)", bf.name, bf.attrs.tag, f.attrs.tag, CO_DEFAULTS[c.default % 4])));
+                }
+            }
+        }
+    }
+    Ok(None)
+}
+
+fn compof_leg(ctx: &mut Ctx, tier: Tier, seed: u64) {
+    use rayon::prelude::*;
+    let mut cases: Vec<CompOf> = vec![];
+    for (_p, v) in crate::ev::replay_files("C03") {
+        if v["kind"] == "c03-compof" {
+            if let Ok(c) = serde_json::from_value::<CompOf>(v["case"].clone()) {
+                cases.push(c);
+            }
+        }
+    }
+    let n = tier.pick(800, 8000);
+    let mut drv = crate::ev::Driver::new(seed, 303, 40);
+    for t in drv.draw(n) {
+        let s = t.current();
+        let mut src = crate::src::Src::new(&s);
+        let default = src.pick(4);
+        let k = 1 + src.pick(4);
+        let members = (0..k).map(|i| (src.pick(3) as u8, (i * 3 + src.pick(3)) as u8, src.weighted(&[6, 2, 2]) as u8, src.pick(CO_TYPES.len()) as u8, src.chance(25))).collect();
+        cases.push(CompOf { default, members });
+    }
+    let results: Vec<(CompOf, Result<Option<String>, String>)> = cases.into_par_iter().map(|c| { let r = co_eval(&c); (c, r) }).collect();
+    let mut reported = 0;
+    for (c, r) in results {
+        match r {
+            Err(_) => ctx.class("compof:skipped (rejected / not generated)"),
+            Ok(res) => {
+                ctx.case(&format!("compof:{}", co_text(&c)), true);
+                ctx.class("leg:COMPONENTS-OF-keeps-tags");
+                ctx.class(&format!("compof:default={}", CO_DEFAULTS[c.default % 4]));
+                if let Some(d) = res {
+                    ctx.class("fails:compof");
+                    if reported < 3 {
+                        reported += 1;
+                        let mut small = c.clone();
+                        while small.members.len() > 1 {
+                            let mut t2 = small.clone();
+                            t2.members.pop();
+                            if matches!(co_eval(&t2), Ok(Some(_))) { small = t2 } else { break }
+                        }
+                        let d = match co_eval(&small) { Ok(Some(d2)) => d2, _ => d };
+                        ctx.fail(Failure { finding: None, what: format!("COMPONENTS OF changes a tag: {d}"), replay: json!({"kind": "c03-compof", "case": small, "sources": [{"name": "co.asn", "text": co_text(&small)}], "observed": d}) });
+                    }
+                }
+            }
+        }
+    }
+}
+
 pub fn run(tier: Tier, seed: u64, replay: Option<String>) -> i32 {
     let mut ctx = Ctx::new("C03", tier, seed);
     ctx.max_replays = 12;
@@ -299,6 +417,23 @@ pub fn run(tier: Tier, seed: u64, replay: Option<String>) -> i32 {
     ];
     let e = |m: &ModuleSet| eval(m);
     let grun = GenericRun { gcfg: gen_cfg(), n: tier.pick(30000, 300000), stream_len: 4000, salt: 3, shrink_budget: 300, max_violations: 4, eval: &e };
+    if let Some(p) = &replay {
+        let v: Value = serde_json::from_str(&std::fs::read_to_string(p).unwrap_or_default()).unwrap_or_default();
+        if v["kind"] == "c03-compof" {
+            if let Ok(c) = serde_json::from_value::<CompOf>(v["case"].clone()) {
+                match co_eval(&c) {
+                    Err(e) => ctx.inconclusive.push(e),
+                    Ok(res) => {
+                        ctx.case(&co_text(&c), true);
+                        if let Some(d) = res {
+                            ctx.fail(Failure { finding: None, what: format!("COMPONENTS OF changes a tag: {d}"), replay: v.clone() });
+                        }
+                    }
+                }
+            }
+            return ctx.finish();
+        }
+    }
     if let Some(p) = replay {
         let r = replay_generic(&mut ctx, &grun, "c03", &p);
         let code = ctx.finish();
@@ -310,6 +445,7 @@ pub fn run(tier: Tier, seed: u64, replay: Option<String>) -> i32 {
     }
     ctx.exhaustive = true;
     run_generic(&mut ctx, &grun, "c03");
+    compof_leg(&mut ctx, tier, seed);
     let _: Option<Value> = None;
     ctx.finish()
 }
